@@ -52,7 +52,13 @@ func (x *Exec) execCall(s *State, in *ssa.Call, resume func(*State)) bool {
 			set(x.stdlib(s, in, sc, args))
 			return false
 		}
-		return x.callPackage(s, in, sc, args, nil, resume)
+		var binds []Val
+		if mc, ok := c.Value.(*ssa.MakeClosure); ok {
+			for _, b := range mc.Bindings {
+				binds = append(binds, x.valueOf(s, b))
+			}
+		}
+		return x.callPackage(s, in, sc, args, binds, resume)
 	}
 	// function value
 	fv := x.valueOf(s, c.Value)
@@ -317,6 +323,9 @@ func (x *Exec) callPackage(s *State, in *ssa.Call, callee *ssa.Function, args []
 	if binds != nil && fc == nil {
 		inline = true // immediately-invoked closure without contract
 	}
+	if len(callee.FreeVars) > 0 && binds == nil {
+		inline = false
+	}
 	if inline && x.inlineDepth < 6 {
 		x.inlineDepth++
 		callerFrames := len(s.frames)
@@ -498,6 +507,11 @@ func (x *Exec) applyContract(s *State, in *ssa.Call, fc *FuncContract, callee *s
 	if callee != nil {
 		for i, p := range callee.Params {
 			bind(p.Name(), args[i], p.Type())
+			if fc.Receiver != "" && p.Name() == fc.Receiver {
+				rv := sval{v: args[i], typ: p.Type()}
+				recv = &rv
+				env.vars["self"] = rv
+			}
 		}
 	} else {
 		if recv != nil {
@@ -528,6 +542,9 @@ func (x *Exec) applyContract(s *State, in *ssa.Call, fc *FuncContract, callee *s
 	// frame
 	if !fc.HasMod {
 		x.havocAll(s, func(k string) bool { return keyMatches(fc.Preserves, k) })
+		if len(fc.Preserves) > 0 && callee == nil {
+			x.assumed["frame of "+fc.Key+" (assumed at call sites): preserves "+strings.Join(fc.Preserves, ", ")] = true
+		}
 		if fc.TreeFrame {
 			x.preserveRootReceiver(s, pre)
 		}
@@ -562,6 +579,16 @@ func (x *Exec) applyContract(s *State, in *ssa.Call, fc *FuncContract, callee *s
 		}
 	}
 	env.oldHeap = pre
+	// ghost history variables: updated by the call rule itself
+	for _, cl := range fc.clauses("ghost") {
+		x.applyGhost(s, env, cl, pre, recv)
+	}
+	if fc.DisjointOperands && recv != nil {
+		x.preserveOtherGhosts(s, pre, recv.v.T)
+		if res.K == vScalar && res.T.Sort == SIface && strings.HasSuffix(fc.Key, ".Select") {
+			s.navOwner[res.T.S] = recv.v.T.S
+		}
+	}
 	for _, cl := range append(fc.clauses("ensures"), fc.clauses("ensures-assumed")...) {
 		t, err := env.evalBool(cl.Expr)
 		if err != nil {
@@ -684,6 +711,114 @@ func fieldMayMatch(pats []string, fld string) bool {
 		}
 	}
 	return false
+}
+
+// applyGhost performs `ghost NAME(self) = expr`.
+func (x *Exec) applyGhost(s *State, env *specEnv, cl *Clause, pre map[string]T, recv *sval) {
+	i := strings.Index(cl.Name, "(")
+	if i < 0 || recv == nil {
+		x.unsupported("ghost clause %q", cl.Name)
+		return
+	}
+	gname := strings.TrimSpace(cl.Name[:i])
+	v, err := env.evalVal(cl.Expr)
+	if err != nil {
+		x.unsupported("ghost %s: %v", cl.Name, err)
+		return
+	}
+	val := v.v.T
+	if v.lit != nil {
+		val = T{v.lit.String(), SInt}
+	}
+	ref := recv.v.T
+	if ref.Sort == SIface {
+		ref = mk(SInt, "iptr", ref)
+	}
+	key := "ghost:" + gname
+	base, ok := pre[key]
+	if !ok {
+		base = x.heapSym(s, key, SArray(SInt, val.Sort))
+	}
+	// only the receiver's entry changes w.r.t. the pre-state here; entries of its sub-queries are
+	// forgotten by the havoc that preceded (the array was replaced), so re-anchor on the havocked array
+	cur := x.heapSym(s, key, SArray(SInt, val.Sort))
+	_ = base
+	if recv.v.T.Sort == SIface {
+		// a non-pointer value (bool, number, string) has no ghost entry
+		val = Ite(mk(SBool, "(_ is iref)", recv.v.T), val, Select(cur, ref, val.Sort))
+	}
+	x.heapSet(s, key, Store(cur, ref, val))
+	x.needTheory = true
+}
+
+// preserveOtherGhosts: ghost counters of the other query values in scope survive a call on recv
+// (assumption: distinct query values in one scope are disjoint trees).
+func (x *Exec) preserveOtherGhosts(s *State, pre map[string]T, recv T) {
+	x.assumed["ownership: distinct query values in one scope are disjoint trees (their streams advance independently)"] = true
+	fr := s.top()
+	seen := map[string]bool{recv.S: true}
+	var others []T
+	for _, v := range fr.env {
+		if v.K == vScalar && v.T.Sort == SIface && !seen[v.T.S] {
+			seen[v.T.S] = true
+			others = append(others, v.T)
+		}
+	}
+	// query-valued fields of the receiver of the method under verification are operands too
+	if rc := x.root.Signature.Recv(); rc != nil && len(s.frames) > 0 {
+		if pt, ok := rc.Type().Underlying().(*types.Pointer); ok {
+			if st, ok := pt.Elem().Underlying().(*types.Struct); ok {
+				self := s.frames[0].args[0].T
+				for i := 0; i < st.NumFields(); i++ {
+					key, ft := fieldKey(pt.Elem(), i)
+					if x.sortOf(ft) != SIface || isSlice(ft) {
+						continue
+					}
+					arr := x.heapSym(s, key, SArray(SInt, SIface))
+					if o0, was := pre[key]; was {
+						arr = o0
+					}
+					fv := Select(arr, self, SIface)
+					if !seen[fv.S] {
+						seen[fv.S] = true
+						others = append(others, fv)
+					}
+				}
+			}
+		}
+	}
+	sort.Slice(others, func(i, j int) bool { return others[i].S < others[j].S })
+	// navigators handed out by other queries are not moved by this one
+	if old, ok1 := pre["navpos"]; ok1 {
+		if cur, ok2 := s.heap["navpos"]; ok2 && old.S != cur.S {
+			var navs []string
+			for nv, owner := range s.navOwner {
+				if owner != recv.S {
+					navs = append(navs, nv)
+				}
+			}
+			sort.Strings(navs)
+			for _, nv := range navs {
+				r := mk(SInt, "iptr", T{nv, SIface})
+				s.assume(Eq(Select(cur, r, SPos), Select(old, r, SPos)))
+			}
+		}
+	}
+	for _, g := range []string{"ghost:k", "ghost:epoch", "ghost:ctxp"} {
+		old, ok1 := pre[g]
+		cur, ok2 := s.heap[g]
+		if !ok1 || !ok2 || old.S == cur.S {
+			continue
+		}
+		es := SInt
+		if g == "ghost:ctxp" {
+			es = SPos
+		}
+		for _, o := range others {
+			ro, rr := mk(SInt, "iptr", o), mk(SInt, "iptr", recv)
+			s.assume(Implies(And(mk(SBool, "(_ is iref)", o), Or(Not(mk(SBool, "(_ is iref)", recv)), Not(Eq(ro, rr)))), Eq(Select(cur, ro, es), Select(old, ro, es))))
+		}
+	}
 }
 
 // preserveRootReceiver: assumed ownership discipline — a sub-query never writes the query object
